@@ -91,7 +91,11 @@ func (c *Ctx) redisKeyInjective(r *redisRoles, rule string) {
 				if _, isArr := x.X.Type().Underlying().(*types.Pointer); isArr {
 					add(x, v, "", nil) // the variadic argument array
 				} else if x.X == v {
-					add(x, v, "slice"+sliceText(x), x)
+					if x.Low != nil && x.High == nil {
+						add(x, v, "strips-leading-characters", x)
+					} else {
+						add(x, v, "slice"+sliceText(x), x)
+					}
 				}
 			case *ssa.Call:
 				name := ir.CalleeFullName(x)
@@ -116,6 +120,9 @@ func (c *Ctx) redisKeyInjective(r *redisRoles, rule string) {
 					}
 				case "fmt.Sprint", "strings.Join", "strings.Clone":
 					add(x, v, "", nil)
+				case "strings.TrimLeft", "strings.TrimPrefix":
+					// the same loss as a loop slicing leading characters off
+					add(x, v, "strips-leading-characters", x)
 				default:
 					if name == "" {
 						name = "a function value"
